@@ -11,6 +11,7 @@ DEVS = [
     {"dev": {"k": "eq_copy_response"}},
     {"dev": {"k": "eq_unequal_shared_nonce"}},
     {"dev": {"k": "eq_one_side_disclosed"}},
+    {"dev": {"k": "eq_disc_reverse_exploit"}},
     {"dev": {"k": "omit_pred"}, "target": "e0"},
     {"dev": {"k": "variant_under_sig", "variant": "eq"}, "target": "s1"},
     {"dev": {"k": "disc_pad_oob_first"}, "need_disclosed": 1, "target": "s1"},
